@@ -84,13 +84,26 @@ def r_wrapper_order(P, chk):
             chk.violation(rid, "wrapper:order:%s" % name, f.where(s), "%s: the document header/footer no longer bracket the body and "
                           "note lists (header %s, footer %s)" % (name, s["callee"], e["callee"]))
         cs, ce = _guard_conds(f, s), _guard_conds(f, e)
-        okc = cs == ce
+
+        def complete_bit(val):
+            def d(t):
+                t = strip(t)
+                if t is not None and t["k"] == "BinaryOperator" and t["op"] == "&" and \
+                        any(enum_name(a) == "EXT_COMPLETE" or const_value(a) == P.enum_consts.get("EXT_COMPLETE") for a in t["c"]):
+                    return val
+                return None
+            return d
+        # same condition, by path conditions: with the format decided, header and footer are reachable for the same values
+        # of the EXT_COMPLETE bit (both with it, neither without it), and the body for both values
+        on = edpe_blocks(f, "scratch->output_format", v, extra_decide=complete_bit(True))
+        off = edpe_blocks(f, "scratch->output_format", v, extra_decide=complete_bit(False))
+        okc = (sb in on) == (eb in on) and (sb in off) == (eb in off) and (sb in on) and not (sb in off) or cs == ce
         chk.obligation(rid, "%s: header and footer are emitted under the same condition %s" % (name, cs or "(always)"), okc)
         if not okc:
             chk.violation(rid, "wrapper:cond:%s" % name, f.where(s), "%s: header is emitted under %s but footer under %s" % (name, cs, ce))
         # body is unconditional
         for c in B:
-            okb = not _guard_conds(f, c)
+            okb = not _guard_conds(f, c) or (pos[c["i"]][0] in on and pos[c["i"]][0] in off)
             chk.obligation(rid, "%s: the body export is unconditional" % name, okb)
             if not okb:
                 chk.violation(rid, "wrapper:body:%s" % name, f.where(c), "%s: body export is conditional on %s" % (name, _guard_conds(f, c)))
@@ -112,11 +125,16 @@ def r_wrapper_order(P, chk):
                 if v is not None and v & ext["EXT_COMPLETE"]:
                     n_set += 1
                     conds = _guard_conds(g, x)
-                    ok = any(c.replace(" ", "").startswith("!(") and "EXT_SNIPPET" in c or
-                             (c.startswith("!") and "&%d" % ext["EXT_SNIPPET"] in c.replace(" ", "")) for c in conds)
-                    if not ok:
-                        # key() renders enumerators by name
-                        ok = any(c.startswith("!") and "EXT_SNIPPET" in c for c in conds)
+                    # path condition: with the EXT_SNIPPET bit set the store is unreachable (whatever the branch shape)
+
+                    def snippet_set(t):
+                        t = strip(t)
+                        if t is not None and t["k"] == "BinaryOperator" and t["op"] == "&" and \
+                                any(enum_name(a) == "EXT_SNIPPET" or const_value(a) == ext["EXT_SNIPPET"] for a in t["c"]):
+                            return True
+                        return None
+                    gpos = g.cfg.positions()
+                    ok = x["i"] in gpos and gpos[x["i"]][0] not in edpe_blocks(g, "?none", 0, extra_decide=snippet_set)
                     chk.obligation(rid, "%s %s: EXT_COMPLETE is set only when EXT_SNIPPET is not requested" % (g.where(x), g.name), ok)
                     if not ok:
                         chk.violation(rid, "wrapper:snippet:%s" % g.name, g.where(x), "%s forces a complete document without checking "
